@@ -35,7 +35,7 @@ static bool valid_namespace(const std::string &s) {
   }
 }
 
-ParseVerdict parse(const std::string &t, Rule *out, std::string *why) {
+ParseVerdict parse(const std::string &t, Rule *out, std::string *why, bool wellknown_destination_ok) {
   Rule r;
   auto bad = [&](const char *w) { if (why) *why = w; return PV_INVALID; };
   auto unspec = [&](const char *w) { if (why) *why = w; return PV_UNSPECIFIED; };
@@ -104,7 +104,7 @@ ParseVerdict parse(const std::string &t, Rule *out, std::string *why) {
       r.has_path_namespace = true; r.path_namespace = val;
     } else if (key == "destination") {
       if (!wire::valid_bus_name(val)) return bad("destination not a bus name");
-      if (!wire::valid_unique_name(val)) { soft = true; softwhy = "destination is not a unique name"; }
+      if (!wire::valid_unique_name(val) && !wellknown_destination_ok) { soft = true; softwhy = "destination is not a unique name"; }
       r.has_destination = true; r.destination = val;
     } else if (key == "eavesdrop") {
       if (val == "true") r.eavesdrop = true;
